@@ -65,6 +65,14 @@ def case_st(draw, relative=False):
             extra = draw(st.lists(st.one_of(lang.word, st.sampled_from(['12345', '#1234', 'UBER UBER', 'aa', '"AMZN"', "'", '\\'] + wit + wit)), max_size=2))
             t = dict(t, description=lang.flip_case(' '.join(lits + extra) or 'UBER', draw(st.one_of(st.just(0), st.integers(0, 65535)))))
         txns.append(t)
+    if draw(st.integers(0, 2)) == 0:
+        # a recurring charge (identical description) inside and outside the month a month-only rule names, classified by ONE loaded rule set
+        mth = draw(st.integers(1, 12))
+        rules.insert(draw(st.integers(0, len(rules))), {'pattern': 'ZQMONTHLY', 'mods': [{'k': 'month', 'm': mth}], 'merchant': 'Monthly', 'category': draw(st.sampled_from(['Bills & Utilities', ''])),
+                                                         'subcategory': 'Recurring', 'tags': ['in-month']})
+        base = draw(lang.txn_case)
+        pair = [dict(base, description='ZQMONTHLY FEE 77', date=f'2024-{mth:02d}-15'), dict(base, description='ZQMONTHLY FEE 77', date=f'2024-{(mth % 12) + 1:02d}-15')]
+        txns = txns + (pair if draw(st.booleans()) else pair[::-1])
     return {'rules': rules, 'txns': txns}
 
 
